@@ -292,6 +292,7 @@ fn opts_of_flags(flags: &str) -> GenOpts {
         per_iteration: flags.contains('i'),
         free: flags.contains('o'),
         timing: flags.contains('t'),
+        dense: flags.contains('d'),
     }
 }
 
@@ -368,6 +369,9 @@ fn planners(args: &[String]) {
     }
     if args.iter().any(|a| a == "--timing") {
         flags.push('t');
+    }
+    if args.iter().any(|a| a == "--dense") {
+        flags.push('d');
     }
     match arg(args, "--only-planner") {
         Some("rrt") => flags.push('R'),
